@@ -705,8 +705,13 @@ func (g *Gen) aggExpr(d int) *GExpr {
 	case 5:
 		e = call(TS, "json_arrayagg", g.S(d, "arg"))
 	case 6:
-		e = call(TN, "count", g.S(0, ""))
-		e.NK = "i"
+		if r.Bool() {
+			e = call(TN, "count", g.S(0, ""))
+			e.NK = "i"
+		} else {
+			// sketch-based, but a deterministic function of the values in scan order
+			e = call(TN, "quantile", call(TN, "float", g.S(0, "")), flit(pick(r, []string{"0.5", "0.9", "0.25"})))
+		}
 	default:
 		a := g.N(d, "arg")
 		e = call(TN, "sum", a)
